@@ -14,10 +14,13 @@ From JV Require Import Lib.Base Model.Ns Model.NsRun Model.NsGuard Model.C11NsFi
 (* THE REFINEMENT. For ANY clash set and ANY history (no bound on its length, on the depth of keys or on the size of
    values) of the operations
        ns[k]=v, setattr(ns,k,v), ns[k], ns.get(k,d), k in ns, del ns[k], ns.pop(k,d),
-       ns.update(v,k,only_unset) for a non-Namespace v, ns.clone(), items/keys/values(branches), ns.as_dict()
+       ns.update(v,k,only_unset) for a non-Namespace v, ns.update(namespace,k,only_unset) (every leaf item of the
+       source assigned under prefix k, only_unset tested per item against the CURRENT state, no rollback when an
+       item key is rejected midway), ns.clone(), items/keys/values(branches), ns.as_dict()
    starting from the empty Namespace, with
      - key segments that do not start with U+200B (wf_key; keys the code rejects — a space, an empty segment — are
        INCLUDED: model and spec must both fail and leave the state alone),
+     - for update(namespace, k): every key prefix+item_key it addresses is such a key (upd_keys_ok),
      - values in stored form along every path (wf2: every Namespace reachable through Namespaces and dicts carries the
        attribute names add_clash_mark produces; the keys of dicts are the user's and unconstrained),
    the model of jsonargparse.Namespace answers every step exactly as the nested dictionary does (modulo removing the
@@ -31,28 +34,42 @@ Theorem ns_refines_dict :
 Proof. exact ns_refines_dict_fx_proof. Qed.
 Print Assumptions ns_refines_dict.
 
-(* what class 0 says, spelled out: only well-formedness and the proved core of operations *)
+(* what class 0 says, spelled out: only well-formedness and the proved core of operations (core_op_fx = the core of
+   Model/NsGuard.v and update(namespace); outside: Namespace(dict), dict_to_namespace, ==, step-by-step get as steps) *)
 Theorem hist_class_0_means :
   forall clash ops,
     hist_class_fx clash ops = 0%N <->
-    forallb (wf_op_fx clash) ops = true /\ forallb core_op ops = true.
+    forallb (wf_op_fx clash) ops = true /\ forallb core_op_fx ops = true.
 Proof. exact hist_class_fx_0. Qed.
 Print Assumptions hist_class_0_means.
 
 (* one step, from ANY well-formed stored tree (not only from states reachable from empty) *)
 Theorem step_commutes :
   forall clash root o,
-    wf2 clash (VNs root) = true -> wf_op_fx clash o = true -> core_op o = true ->
+    wf2 clash (VNs root) = true -> wf_op_fx clash o = true -> core_op_fx o = true ->
     forall ou r md, step_fixed clash root o = (ou, r, md) ->
       step_spec (abs_d root) o = (unmark_out ou, abs_d r) /\ wf2 clash (VNs r) = true.
 Proof. exact step_commutes_fx. Qed.
 Print Assumptions step_commutes.
 
+(* update(namespace, key, only_unset) on its own, from ANY well-formed tree and for ANY source namespace in stored form
+   (Namespaces inside lists / dicts of the source included; the source need not be "plain"): the model's loop
+   `for key, val in value.items(): if not only_unset or prefix+key not in self: self[prefix+key] = val` is the
+   dictionary's fold of (membership test;) path assignment over the leaf items of the source, also when the addressed
+   paths go through dict values of the target, and a rejected item key stops both at the same item *)
+Theorem update_namespace_refines :
+  forall clash root src k only_unset,
+    wf2 clash (VNs root) = true -> wf2 clash src = true -> upd_keys_ok src k = true ->
+    forall ou r md, step_fixed clash root (OUpdNs src k only_unset) = (ou, r, md) ->
+      step_spec (abs_d root) (OUpdNs src k only_unset) = (unmark_out ou, abs_d r) /\ wf2 clash (VNs r) = true.
+Proof. exact step_updns_fx. Qed.
+Print Assumptions update_namespace_refines.
+
 (* the same from any well-formed start state, for histories *)
 Theorem ns_refines_dict_from :
   forall clash ops root,
     wf2 clash (VNs root) = true ->
-    forallb (wf_op_fx clash) ops = true -> forallb core_op ops = true ->
+    forallb (wf_op_fx clash) ops = true -> forallb core_op_fx ops = true ->
     Forall2 rel_out (run_fixed clash root ops) (run_spec (abs_d root) ops).
 Proof. exact run_refines_fx. Qed.
 Print Assumptions ns_refines_dict_from.
@@ -126,6 +143,27 @@ Example example_is_nontrivial :
                     (s_items, VDict [(s_items, VInt 5)]) ]);
     OutUnit; OutFail; OutBool true ].
 Proof. vm_compute. reflexivity. Qed.
+
+(* the hypotheses of update_namespace_refines / of the refinement with update(namespace) steps are satisfiable:
+   a dict-valued target leaf; only_unset decided through the dict ('a.b' is set, 'a.items' is not; the clash name is
+   stored WITHOUT mark inside the dict); a source with a Namespace inside a list (not "plain"); a prefix that creates
+   dicts inside the dict; an item key the code rejects ('b.a ' has a space: update fails, nothing stored) *)
+Definition s_a_c : str := s_a ++ DOT :: s_c.
+Definition update_history : list op :=
+  [ OSet s_a (VDict [(s_b, VInt 1)]);
+    OUpdNs (VNs [(s_a, VNs [(s_b, VInt 7); (ZW :: s_items, VList [VNs [(ZW :: s_items, VInt 1)]])])]) None true;
+    OUpdNs (VNs [(s_b, VInt 2); (ZW :: s_items, VNs [(s_c, VNone)])]) (Some s_a_c) false;
+    OUpdNs (VNs [(s_a ++ [SPACE], VInt 2)]) (Some s_b) false;
+    OGet s_a ].
+
+Example update_hypotheses_satisfiable :
+  hist_class_fx clash_names update_history = 0%N /\
+  map fst (run_spec [] update_history) =
+  [ OutUnit; OutUnit; OutUnit; OutFail;
+    OutVal (VDict [ (s_b, VInt 1);
+                    (s_items, VList [VNs [(s_items, VInt 1)]]);
+                    (s_c, VDict [(s_b, VInt 2); (s_items, VDict [(s_c, VNone)])]) ]) ].
+Proof. vm_compute. split; reflexivity. Qed.
 
 (* the hypotheses of dotted_eq_stepwise hold for a three-segment key through a dict and a clash name *)
 Example stepwise_hypotheses_satisfiable :
